@@ -27,6 +27,8 @@ func (s AsyncSetup) String() string {
 }
 
 // Action kinds: "ev" enabled event, "dis" event below the logger's level, "raw" raw write,
+// "raw0" raw write with an empty payload (nil or zero-length: an item like any other), "evl" event
+// at a user level registered after the logger was started (inside the logger's range),
 // "step" let the worker finish the in-flight item.
 type AsyncAction struct {
 	K string
@@ -41,6 +43,7 @@ type AsyncResult struct {
 	Restricted     []int64 // observed at the reference whose range admits no submitted event (direct mode)
 	HasRestricted  bool
 	RawIDs         map[int64]bool // which submissions were raw writes
+	EmptyIDs       map[int64]bool // which of them had an empty payload
 	Counter        int64   // GetDiscardCounter(), -1 if unobservable (Refresh-built logger)
 	Overflows      int     // submissions that met a full buffer
 	BlockWaits     int     // Block submissions that had to wait
@@ -78,7 +81,7 @@ func waitSig(ch chan struct{}, what string, res *AsyncResult) bool {
 
 // RunAsyncHistory executes the history against a real AsyncLogger and the reference model.
 func RunAsyncHistory(setup AsyncSetup, tagName, handleName string, actions []AsyncAction) *AsyncResult {
-	res := &AsyncResult{Counter: -1, RawIDs: map[int64]bool{}}
+	res := &AsyncResult{Counter: -1, RawIDs: map[int64]bool{}, EmptyIDs: map[int64]bool{}}
 	ResetRecs()
 	log.Destroy()
 	gate := NewGate()
@@ -86,7 +89,9 @@ func RunAsyncHistory(setup AsyncSetup, tagName, handleName string, actions []Asy
 
 	var direct *log.AsyncLogger
 	var submitEvent func(id int64, enabled bool)
+	var submitLate func(id int64)
 	var submitRaw func(id int64)
+	var submitEmpty func(id int64)
 	var stop func()
 
 	if setup.ViaRefresh {
@@ -116,6 +121,15 @@ func RunAsyncHistory(setup AsyncSetup, tagName, handleName string, actions []Asy
 			}
 		}
 		submitRaw = func(id int64) { _, _ = asyncHandle.Write([]byte("id=" + strconv.FormatInt(id, 10) + "\n")) }
+		submitEmpty = func(id int64) {
+			if id%2 == 0 {
+				_, _ = asyncHandle.Write(nil)
+			} else {
+				_, _ = asyncHandle.Write([]byte{})
+			}
+		}
+		late := log.RegisterLevel(int32(310+setup.Size%180), "LATE"+strconv.Itoa(setup.Size%5)) // registered while the logger runs
+		submitLate = func(id int64) { log.Record(context.Background(), late, asyncTag, 0, log.Int("id", id)) }
 		stop = log.Destroy
 	} else {
 		g := &RecAppender{AppenderBase: log.AppenderBase{Name: "gate"}}
@@ -157,6 +171,22 @@ func RunAsyncHistory(setup AsyncSetup, tagName, handleName string, actions []Asy
 			direct.Append(e)
 		}
 		submitRaw = func(id int64) { direct.Write([]byte("id=" + strconv.FormatInt(id, 10) + "\n")) }
+		submitEmpty = func(id int64) {
+			if id%2 == 0 {
+				direct.Write(nil)
+			} else {
+				direct.Write([]byte{})
+			}
+		}
+		late := log.RegisterLevel(int32(310+setup.Size%180), "LATE"+strconv.Itoa(setup.Size%5)) // registered while the logger runs
+		submitLate = func(id int64) {
+			e := log.GetEvent()
+			e.Level = late
+			e.Time = time.Unix(0, 0)
+			e.Tag = tagName
+			e.Fields = []log.Field{log.Int("id", id)}
+			direct.Append(e)
+		}
 		stop = direct.Stop
 	}
 
@@ -186,6 +216,10 @@ func RunAsyncHistory(setup AsyncSetup, tagName, handleName string, actions []Asy
 				submitEvent(id, true)
 			case "dis":
 				submitEvent(id, false)
+			case "evl":
+				submitLate(id)
+			case "raw0":
+				submitEmpty(id)
 			default:
 				submitRaw(id)
 			}
@@ -197,8 +231,11 @@ func RunAsyncHistory(setup AsyncSetup, tagName, handleName string, actions []Asy
 			return
 		}
 		res.Submitted = append(res.Submitted, id)
-		if kind == "raw" {
+		if kind == "raw" || kind == "raw0" {
 			res.RawIDs[id] = true
+		}
+		if kind == "raw0" {
+			res.EmptyIDs[id] = true
 		}
 		switch {
 		case !inflight && len(q) == 0:
@@ -349,21 +386,38 @@ func RunAsyncHistory(setup AsyncSetup, tagName, handleName string, actions []Asy
 	if direct != nil {
 		res.Counter = direct.GetDiscardCounter()
 	}
-	if r := Rec("gate"); r != nil {
-		for _, it := range r.Items() {
-			res.Delivered = append(res.Delivered, it.ID)
+	// an empty raw write carries no id: the k-th empty item an appender saw is the k-th empty item
+	// the model delivers (FIFO); surplus ones get id -2
+	ids := func(items []Item) []int64 {
+		var expEmpty []int64
+		for _, id := range res.ExpDelivered {
+			if res.EmptyIDs[id] {
+				expEmpty = append(expEmpty, id)
+			}
 		}
+		var out []int64
+		for _, it := range items {
+			id := it.ID
+			if it.Raw && len(it.Bytes) == 0 {
+				if len(expEmpty) > 0 {
+					id, expEmpty = expEmpty[0], expEmpty[1:]
+				} else {
+					id = -2
+				}
+			}
+			out = append(out, id)
+		}
+		return out
+	}
+	if r := Rec("gate"); r != nil {
+		res.Delivered = ids(r.Items())
 	}
 	if r := Rec("restricted"); r != nil && !setup.ViaRefresh {
 		res.HasRestricted = true
-		for _, it := range r.Items() {
-			res.Restricted = append(res.Restricted, it.ID)
-		}
+		res.Restricted = ids(r.Items())
 	}
 	if r := Rec("second"); r != nil && setup.Second {
-		for _, it := range r.Items() {
-			res.Delivered2 = append(res.Delivered2, it.ID)
-		}
+		res.Delivered2 = ids(r.Items())
 	}
 	return res
 }
